@@ -18,14 +18,15 @@ int_t g_s, g_r, g_c, g_lastL, g_lastG, g_lastU; int g_trsmL, g_trsmU, g_gemm, g_
 #else
 #define IS_ONE(p) (*(p) == 1.0)
 #endif
-/* overwrite len (<= CAP <= 8) entries of up to two columns with arbitrary values (no loop: legacy instrumentation wants none) */
+/* overwrite len (<= CAP <= 8) entries of up to two columns with arbitrary values.  No loop (legacy instrumentation wants none);
+ * written as ARRAY[index] on the named array because cbmc turns stores through an offset pointer into costly byte-level updates. */
 @T@ nondet_value(void);
 #if CAP > 8
 #error "HAVOC_COL is unrolled for CAP <= 8"
 #endif
-#define HV1(p, r, len) if ((r) < (len)) (p)[r] = nondet_value();
-#define HAVOC_COL(p, len) { HV1(p,0,len) HV1(p,1,len) HV1(p,2,len) HV1(p,3,len) HV1(p,4,len) HV1(p,5,len) HV1(p,6,len) HV1(p,7,len) }
-#define HAVOC2(p, ld, len, ncols) { if ((ncols) >= 1) HAVOC_COL((p), (len)) if ((ncols) >= 2) HAVOC_COL((p) + (ld), (len)) }
+#define HV1(A, at, r, len) if ((r) < (len)) (A)[(at) + (r)] = nondet_value();
+#define HAVOC_COL(A, at, len) { HV1(A,at,0,len) HV1(A,at,1,len) HV1(A,at,2,len) HV1(A,at,3,len) HV1(A,at,4,len) HV1(A,at,5,len) HV1(A,at,6,len) HV1(A,at,7,len) }
+#define HAVOC2(A, at, ld, len, ncols) { if ((ncols) >= 1) HAVOC_COL(A, (at), (len)) if ((ncols) >= 2) HAVOC_COL(A, (at) + (ld), (len)) }
 
 void verif_abort(char *msg) { __CPROVER_assume(0); }
 int sprintf(char *s, const char *f, ...) { return 0; }
@@ -60,7 +61,7 @@ int @p@trsm_(char *side, char *uplo, char *transa, char *diag, int *m, int *n, @
     __CPROVER_assert(s < g_lastU, "trsm: upper solves visit supernodes in decreasing order");
     g_lastU = s; if (s == g_s) g_trsmU++;
   }
-  HAVOC2(b, *ldb, nsupc, *n);
+  HAVOC2(in_Bval, in_xsup[s], in_Bstore.lda, nsupc, in_B.ncol);   /* == b[0 .. m) of each of the n columns */
   return 0;
 }
 
@@ -83,7 +84,7 @@ int @p@gemm_(char *ta, char *tb, int *m, int *n, int *k, @T@ *alpha, @T@ *a, int
   __CPROVER_assert(*m <= *ldc && (*n) * (*ldc) <= in_L.nrow * in_B.ncol, "gemm: result block m x nrhs inside the work array");
   __CPROVER_assert(s > g_lastG, "gemm: updates visit supernodes in increasing order");
   g_lastG = s; if (s == g_s) g_gemm++;
-  HAVOC2(c, *ldc, *m, *n);
+  HAVOC2(g_work, 0, in_L.nrow, nsupr - nsupc, in_B.ncol);   /* == c[0 .. m) of each of the n columns (c == g_work asserted above) */
   return 0;
 }
 
@@ -94,6 +95,6 @@ int_t sp_@p@trsv(char *uplo, char *trans, char *diag, SuperMatrix *L, SuperMatri
   __CPROVER_assert(0 <= k && k < in_B.ncol && x == &in_Bval[k * in_Bstore.lda], "sp_trsv: vector == column k of B");
   __CPROVER_assert(k * in_Bstore.lda + in_L.nrow <= CAP*2, "sp_trsv: n entries of the vector inside B");
   g_trsv++; *info = 0;
-  HAVOC_COL(x, in_L.nrow)
+  HAVOC_COL(in_Bval, k * in_Bstore.lda, in_L.nrow)   /* == x[0 .. n) */
   return 0;
 }
